@@ -57,6 +57,12 @@ def sparse_pair(rng, name, dim=None):
         x = rng.integers(1, 4, dim) * m
         y = rng.integers(1, 4, dim) * (~m)
     x, y = np.asarray(x, dtype=np.float64), np.asarray(y, dtype=np.float64)
+    if name not in ("ll_dirichlet",) and kind in ("gauss-mask", "integer", "identical-support", "cancelling") and rng.random() < 0.35:
+        # small- and large-magnitude data (relative abundances, normalised frequencies; raw counts): the scale-invariant metrics
+        # (hamming, canberra, braycurtis, cosine, correlation, the binary family) must not notice
+        sc = float(rng.choice([1e-8, 1e-4, 1e4]))
+        x, y = x * sc, y * sc
+        kind = kind + f"@{sc:g}"
     if name in ("hellinger", "ll_dirichlet"):
         x, y = np.abs(x), np.abs(y)
     if name == "ll_dirichlet":
@@ -116,7 +122,10 @@ def run(ctx):
         except ZeroDivisionError:
             vd = float("nan")
         tol = 2e-5
-        if not (close(vs, vd, rtol=tol, atol=(3e-4 if name in ("hellinger", "cosine", "correlation") else tol))
+        mag = float(max(np.max(np.abs(x), initial=0.0), np.max(np.abs(y), initial=0.0)))
+        homog = mg.canon(name) in ("euclidean", "manhattan", "chebyshev", "minkowski")      # d(cx, cy) = c d(x, y)
+        if not (close(vs, vd, rtol=tol, atol=(3e-4 if name in ("hellinger", "cosine", "correlation") else
+                                              tol * (mag if (homog and mag > 0) else 1.0)))
                 or (np.isnan(vs) and np.isnan(vd))):
             ctx.violation("sparse-vs-dense", f"sparse {name} = {vs}, dense {name} on the same vectors = {vd}", case,
                           key=f"C13:{name}")
@@ -141,7 +150,10 @@ def run(ctx):
     outs = drv.run()
     for h, vs, case, name in pend:
         m = b2f(outs[h])
-        ok = close(m, vs, rtol=2e-5, atol=(3e-4 if name in ("hellinger", "cosine", "correlation") else 2e-5)) or (np.isnan(m) and np.isnan(vs))
+        mag = float(max(np.max(np.abs(case["x"]), initial=0.0), np.max(np.abs(case["y"]), initial=0.0)))
+        homog = mg.canon(name) in ("euclidean", "manhattan", "chebyshev", "minkowski")
+        ok = close(m, vs, rtol=2e-5, atol=(3e-4 if name in ("hellinger", "cosine", "correlation") else
+                                           2e-5 * (mag if (homog and mag > 0) else 1.0))) or (np.isnan(m) and np.isnan(vs))
         if not ok:
             ctx.mismatch("smetric", {"impl": vs, "model": m}, case)
 
